@@ -1,9 +1,41 @@
-(* C07 -- end-to-end property on MiniPy programs: see Py/Sem.v (reference semantics), Py/Instr.v, Py/Guard.v. *)
+(* C07 -- a hook's return value replaces exactly the targeted value.
+   The analyses are arbitrary here (their reactions may return values): the instrumented run equals the
+   reference run, in which the answer of the specific hook, else of the generic hook, else the original value
+   continues the evaluation ([sel3]/[sel2]), every other evaluation being untouched. *)
 From Coq Require Import String List Bool.
-From DV Require Import Py.Codes.
+From DV Require Import Engine.Dispatch Py.Syntax Py.Sem Py.Instr Py.Guard Py.Refine Py.Props Py.Codes
+                       Concrete.Run Concrete.Witness.
+Import ListNotations.
+Open Scope string_scope.
+
+Theorem C07_overrides_as_reference :
+  forall (D : data) (analyses : list (analysis (Sem.earg (d_val D)))) (modpath : string)
+         (H : list string) (p : program) (fuel : nat) (s : state D),
+    pure_truth D -> src_prog p = true -> ok_prog H p = true ->
+    inst_run D analyses modpath H fuel p s = ref_run D analyses modpath H fuel p s.
+Proof. exact instrumented_is_reference. Qed.
+Print Assumptions C07_overrides_as_reference.
+
+(* "specific wins, else generic, else the original; None never changes anything" *)
+Theorem C07_selection_rule : forall (D : data) (lo hi : option (Sem.earg (d_val D))) (orig : d_val D),
+  sel3 (d_val D) (d_const D) lo hi orig =
+  match lo, hi with
+  | Some a, _ => arg_val (d_val D) (d_const D) a
+  | None, Some a => arg_val (d_val D) (d_const D) a
+  | None, None => orig
+  end.
+Proof. intros D [a|] [b|] orig; reflexivity. Qed.
+Theorem C07_none_changes_nothing : forall (D : data) (orig : d_val D),
+  sel3 (d_val D) (d_const D) None None orig = orig /\ sel2 (d_val D) (d_const D) None orig = orig.
+Proof. intros; split; reflexivity. Qed.
+Print Assumptions C07_none_changes_nothing.
+
+Theorem C07_refuted_chain_eager :
+  obs_same (run_inst 40 h_chain_eager a_chain_eager false w_chain_eager) (run_ref 40 h_chain_eager a_chain_eager false w_chain_eager) = false.
+Proof. exact w_chain_eager_deviates. Qed.
+
 Theorem C07_codes_match_source : codes_ok = true.
 Proof. exact codes_ok_true. Qed.
-Print Assumptions C07_codes_match_source.
 Theorem C07_dispatch_sequences_match_source : dispatch_model_ok = true.
 Proof. exact dispatch_model_ok_true. Qed.
 Print Assumptions C07_dispatch_sequences_match_source.
